@@ -6,7 +6,7 @@
    All arithmetic theorems hold for every width bits t > 0 and every in-range operand. *)
 From PV Require Import Lib.Py Spec.IRSemArith Gen.ir2py_runtime Model.Ir2Py Proofs.C24_ir2py.
 From PV Require Spec.IRSyntax Spec.IRSem.
-From PV Require Import Model.Ir2PyFunc Proofs.C24_func Model.Ir2PyRot Proofs.C24_rot.
+From PV Require Import Model.Ir2PyFunc Proofs.C24_func Model.Ir2PyRot Proofs.C24_rot Model.Ir2PyMod Proofs.C24_mod.
 From Coq Require Import String.
 Open Scope Z_scope.
 
@@ -171,6 +171,41 @@ Example c24_block_switch_nonvacuous :
       = IRSem.ODone (Some (IRSem.Vint 12), s') /\
     run_pfunc 30 pf [5] = Ok 12.
 Proof. split; [vm_compute; reflexivity|]. do 3 eexists. repeat split; vm_compute; reflexivity. Qed.
+
+(* ---- whole MODULES with calls.  Model.Ir2PyMod.compile_modul = ir2py for modules whose functions are in
+   the integer / branch / phi / return fragment PLUS calls of functions of the same module and of external
+   functions / procedures (x = callee(a, b); x = rt.externals['name'](a, b)); the printed text of every
+   function is compared with the emitted text on generated modules on every run.  run_mod = the CPython
+   meaning; ONE fuel bounds the call depth and the loop iterations of every activation.  External callables
+   are an oracle parameter; Spec.IRSem fixes the result of an external function to 0, so the theorem is
+   stated for oracles that return 0, and the trace of external calls (name, arguments) is part of the
+   result on both sides.  For every well-formed module of the fragment, every function and all in-range
+   integer arguments: if the reference semantics returns a value, the emitted Python returns the same
+   value AND has made the same external calls in the same order, for every sufficiently large fuel.
+   EXCLUDED (compile_modul = None), precisely: float constants/arithmetic/casts, ptr-typed values, memory
+   (Alloc, AddressOf, Load, Store, CopyBlob, LiteralData, global variables: the runtime's address space
+   differs from Spec.IRSem's, a simulation needs a memory injection; the byte-level behaviour of the
+   load_/store_ helpers is c24_loadstore_exact), Undefined, module Procedures / Exit, indirect calls,
+   out-of-range constants, rol/ror inside functions. *)
+Theorem c24_module_simulates : forall oracle c m fs fname f zs s fuel x s',
+  (forall n a, oracle n a = 0) ->
+  IRSyntax.wf_modul m = true -> compile_modul m = Some fs -> IRSyntax.find_func m fname = Some f ->
+  args_ok zs (map snd (IRSyntax.f_params f)) ->
+  IRSem.run_function c m fname (map IRSem.Vint zs) s fuel = IRSem.ODone (Some x, s') ->
+  exists v, x = IRSem.Vint v /\
+    exists K, forall k, (K <= k)%nat ->
+      run_mod oracle fs k fname (map PInt zs) (tr_of (IRSem.s_tr s)) = Ok (PInt v, tr_of (IRSem.s_tr s')).
+Proof. exact module_simulates. Qed.
+Print Assumptions c24_module_simulates.
+
+Example c24_module_simulates_nonvacuous :
+  IRSyntax.wf_modul c24_call_modul = true /\
+  exists fs s', compile_modul c24_call_modul = Some fs /\
+    IRSem.run_function IRSem.default_cfg c24_call_modul "useext" (map IRSem.Vint [4])
+      (IRSem.init_st IRSem.default_cfg c24_call_modul) 40 = IRSem.ODone (Some (IRSem.Vint 172), s') /\
+    tr_of (IRSem.s_tr s') = [("getk"%string, [4])] /\
+    run_mod_int (fun _ _ => 0) fs 40 "useext" [4] = Ok (172, [("getk"%string, [4])]).
+Proof. exact module_simulates_nonvacuous. Qed.
 
 (* hypotheses are inhabited: i8 100 * 3 wraps to 44; -7 / 2 = -3; -7 % 2 = -1; -128 >> 7 = -1 *)
 Example c24_nonvacuous :
